@@ -393,7 +393,7 @@ def check_C18(tier):
         extra_cov=dict(configs=cfgs, reference_api_items=nref, sibling_pairs_compared=n5, per_config=stats))
 
 
-CHECKS = {"C17": check_gates("C17", ["hashreset", "widecov"]), "C18": check_C18, "C20": check_gates("C20", ["maskdom", "muxshape", "limbcov"]), "C05": check_gates("C05", ["gates", "limbcov"]), "C06": check_gates("C06", ["gates", "limbcov"]), "C07": check_gates("C07", ["gates", "limbcov"]),
+CHECKS = {"C17": check_gates("C17", ["hashreset", "widecov"]), "C18": check_C18, "C20": check_gates("C20", ["maskdom", "muxshape", "limbcov", "gates"]), "C05": check_gates("C05", ["gates", "limbcov"]), "C06": check_gates("C06", ["gates", "limbcov"]), "C07": check_gates("C07", ["gates", "limbcov"]),
           "C08": check_gates("C08", ["gates", "limbcov"]), "C09": check_gates("C09", ["gates", "limbcov"]),
           "C15": check_gates("C15", ["gates", "totality", "limbcov"]), "C16": check_gates("C16", ["gates"]),
           "C02": check_C02, "C04": check_C04, "C13": check_gates("C13", ["uxcomp", "gates", "limbcov"], level="exploration"),
